@@ -51,7 +51,12 @@ def make(cfg, seed, opd_scale=1.0, wl=None, tilt=None):
 
 
 def cfg_for(pupil, N, os_, eps_sign, aniso=False):
-    """wavelength that makes the FFT grid N (per axis (2N, N) when aniso)."""
+    """wavelength that makes the FFT grid N (per axis (2N, N) when aniso; 'z2': focal length 2)."""
+    if aniso == 'z2':
+        dx, du = 2.0 ** -7, 2.0 ** -17
+        wl_rep = N * DXDU / os_ / 2.0
+        eps = eps_sign * 0.2 / N
+        return {'pupil': pupil, 'dx': dx, 'du': du, 'z': 2.0, 'os': os_, 'wl': wl_rep * (1 + eps), 'N': (N, N), 'wl_rep': wl_rep, 'eps': eps_sign}
     if aniso == 'wide':
         dx, du = (2.0 ** -7, 2.0 ** -7), (2.0 ** -16, 2.0 ** -17)
         Ngrid = (N, 2 * N)
@@ -125,6 +130,15 @@ def chk(case, acc, seed):
     adv = lentil.scratch_shape(cfg['wl'], cfg['dx'], du, cfg['z'], os_)
     if tuple(int(a) for a in adv) != tuple(Ngrid):
         acc.violation('fft:scratch_shape', case, f'scratch_shape={adv} but the FFT grid is {Ngrid}')
+    if smode == 'exact':
+        # several wavelengths: one buffer that is large enough for each of them, i.e. the shape of the longest
+        for wls in ([cfg['wl'] * 0.5, cfg['wl']], [cfg['wl'], cfg['wl'] * 0.75, cfg['wl'] * 0.3], np.array([cfg['wl'] * 0.9, cfg['wl']])):
+            advm = lentil.scratch_shape(wls, cfg['dx'], du, cfg['z'], os_)
+            if tuple(int(a) for a in advm) != tuple(Ngrid):
+                acc.violation('fft:scratch_shape:several-wavelengths', dict(case, wavelengths=[float(x) for x in wls]),
+                              f'scratch_shape for wavelengths {list(wls)} is {advm}; the longest of them needs {Ngrid}')
+                break
+        acc.cls('scratch_shape:several')
     scratch = build_scratch(smode, tuple(int(a) for a in adv))
     wdig = [(np.asarray(f.data).tobytes(), tuple(np.asarray(f.offset).tolist())) for f in w.data]
     acc.cls('grid-odd' if Ngrid[1] % 2 else 'grid-even')
@@ -293,7 +307,7 @@ def t_cfg(arg, acc):
     for N in grids(pupil, tier):
         for os_ in (1, 2, 3):
             for eps in (0, 1, -1):
-                for aniso in (False, True, 'wide'):
+                for aniso in (False, True, 'wide', 'z2'):
                     if aniso and (eps != 0 or N > max(pupil) + 2):
                         continue
                     for support in (('full', 'offcentre', 'block', 'seg2') if eps == 0 and not aniso else ('full',)):
@@ -335,7 +349,7 @@ def run(tier, seed, acc, procs=None):
                         "second oracle: lentil's propagate_dft at the reported wavelength with the OPD rescaled so the phasor is unchanged",
                         'per-axis sampling only where both axes report the same wavelength'],
         'require': {'grid-odd': 100, 'grid-even': 100, 'scratch:exact': 100, 'scratch:dirty': 50, 'vs-dft': 100,
-                    'refusal': 50, 'history': 3, 'wavelength-differs': 100},
+                    'refusal': 50, 'history': 3, 'wavelength-differs': 100, 'scratch_shape:several': 100},
     }
 
 
